@@ -55,6 +55,9 @@ def all_renderings(tree, full=True):
         yield render(tree, iter(combo))
 
 
+DATAS = ("x", "a\nb c", "x]", "q]]r", "R&amp;D", "&lt;")      # incl. data ending in ']' / holding ']]' (CDATA edge) and entity text (must stay escaped)
+
+
 def trees(max_nodes, agg_tags=("A", "AG"), leaf_tags=("B1", "C.D"), datas=("x", "a\nb c")):
     """all trees with <= max_nodes nodes whose root is an aggregate.  Aggregates and data elements draw their
     tags from disjoint sets: '<A><A>x</A>' (a data element without end tag as last child of a same-named parent)
